@@ -102,6 +102,9 @@ def r1(ctx):
                 problems.append('folded source is %s bits wide' % f0['width'])
         elif len(fn.params) != 3 or 'MasterSymbolString' in fn.sig or 'vector' in fn.sig:
             problems.append('no ID fold found')
+        narrow = [(p['src'], p['shift']) for p in pl if p.get('shiftw') is not None and p['shiftw'] < 64]
+        if narrow:
+            problems.append('fields shifted in a type narrower than the key (bits above 31 lost / sign extension): %s' % narrow)
         ctx.ob('C08.R1', fn, fn.body, not problems, 'key layout in %s' % fn.sig.split('(')[0].split('::')[-1] +
                ('(%s)' % fn.sig.split('(')[1][:24]), '; '.join(problems) or 'fields at 61/56/48/40/32, XOR fold 24..0 wrapping')
     # masks
